@@ -4181,6 +4181,13 @@ coap_dispatch(coap_context_t *context, coap_session_t *session,
   case COAP_MESSAGE_NON:
     /* find transaction in sendqueue in case large response */
     coap_remove_from_queue(&context->sendqueue, session, pdu->mid, &sent);
+    if (sent && sent->pdu->type == COAP_MESSAGE_CON && session->con_active) {
+      /* No longer retransmitted, so no longer in flight */
+      session->con_active--;
+      if (session->state == COAP_SESSION_STATE_ESTABLISHED)
+        /* Flush out any entries on session->delayqueue */
+        coap_session_connected(session);
+    }
     /* check for unknown critical options */
     if (coap_option_check_critical(session, pdu, &opt_filter) == 0) {
       packet_is_bad = 1;
